@@ -544,7 +544,7 @@ def driveStep (m : Machine) (c : Ctx) (rf : Array Range) (subFlags : Nat)
 /-- src: aat_layout_morx_table.rs::drive — the `loop { … }`. Returns the buffer and the number of
     iterations. The recursion is justified by `psi` (the code's own budget); `none` is the model's guard
     for it: it is returned if an iteration does not decrease `psi`. Proved impossible for the in-place
-    subtables (Props/C17: `C17_drive_terminates`), never observed in the correspondence for the others. -/
+    subtables (Props/C17: `C17_drive_terminates_partial`), never observed in the correspondence for the others. -/
 def driveLoopO (m : Machine) (c : Ctx) (rf : Array Range) (subFlags : Nat)
     (b : Buf) (cs : CS) (state : Nat) (lastRange : Option Nat) (steps : Nat) : M (Option (Buf × Nat)) :=
   match driveStep m c rf subFlags b cs state lastRange with
